@@ -835,6 +835,10 @@ func (i *InsertStatement) SQL() string {
 		sb.WriteString(onConflictSQL(i.OnConflict))
 	}
 
+	if i.OnDuplicateKey != nil {
+		sb.WriteString(onDuplicateKeySQL(i.OnDuplicateKey))
+	}
+
 	if len(i.Returning) > 0 {
 		sb.WriteString(" RETURNING ")
 		sb.WriteString(exprListSQL(i.Returning))
@@ -1577,6 +1581,17 @@ func cteSQL(cte *CommonTableExpr) string {
 	sb.WriteString(stmtSQL(cte.Statement))
 	sb.WriteString(")")
 	return sb.String()
+}
+
+func onDuplicateKeySQL(u *UpsertClause) string {
+	if len(u.Updates) == 0 {
+		return ""
+	}
+	upds := make([]string, len(u.Updates))
+	for i, e := range u.Updates {
+		upds[i] = exprSQL(e.Column) + " = " + exprSQL(e.Value)
+	}
+	return " ON DUPLICATE KEY UPDATE " + strings.Join(upds, ", ")
 }
 
 func onConflictSQL(oc *OnConflict) string {
